@@ -880,6 +880,19 @@ func (w *joeWorld) evaluate(res verifhook.Result, bubblePanic string) {
 			names = append(names, fmt.Sprintf("%s@%s", t.Name, t.Site()))
 		}
 		o.violate("C07", "stuck", "after Shutdown, with nothing left to run, these tasks never finished: %s", strings.Join(names, ", "))
+		joeStuck := false
+		for _, t := range res.Unfinish {
+			if t.Internal {
+				joeStuck = true
+			}
+		}
+		for _, s := range w.subs {
+			if joeStuck && s.sub.Failed != nil {
+				// one subscriber's failure stalled the provider: everybody else is affected
+				o.violate("C17", "failure-stalls-provider", "after sub%d's failure (%v) Joe's goroutine is blocked for good (%s): no other subscriber gets anything any more", s.id, s.sub.Failed, strings.Join(names, ", "))
+				break
+			}
+		}
 		return
 	}
 	if bubblePanic != "" {
